@@ -11,7 +11,7 @@ base = json.load(open("/root/.vp/BASELINE.json"))
 stable = set(base["stable_pass"])
 out = tempfile.mkdtemp(prefix="baseline_")
 xml = os.path.join(out, "junit.xml")
-cmd = ["/venv/bin/python", "-m", "pytest", "-q", "-p", "no:cacheprovider", "--timeout=900", "--continue-on-collection-errors", "--no-cov", "-n", jobs, f"--junitxml={xml}"]
+cmd = ["/venv/bin/python", "-m", "pytest", "-q", "-p", "no:cacheprovider", "--timeout=900", "--continue-on-collection-errors", "--no-cov", "-rf", "-n", jobs, f"--junitxml={xml}"]
 env = dict(os.environ)
 p = subprocess.run(cmd, cwd=repo, env=env, stdout=subprocess.PIPE, stderr=subprocess.STDOUT, text=True)
 tail = p.stdout.strip().splitlines()[-3:]
@@ -25,6 +25,15 @@ for tc in ET.parse(xml).getroot().iter("testcase"):
         failed.add(name)
     elif not skipped:
         passed.add(name)
+# a test listed as FAILED in pytest's final summary failed for good, even when an earlier
+# or later attempt of the rerun plugin passed
+import re
+for line in p.stdout.splitlines():
+    m = re.match(r"FAILED (\S+?)::(\S+)", line)
+    if m:
+        name = m.group(1).replace("/", ".").removesuffix(".py") + "::" + m.group(2)
+        failed.add(name)
+        passed.discard(name)
 missing = sorted(stable - passed)
 print("\n".join(tail))
 print(f"stable_pass={len(stable)} passed_now={len(passed)} failed_now={len(failed)} stable_not_passing={len(missing)}")
